@@ -1,6 +1,6 @@
 """Formatting: opaque unless formatting is the subject.  `format!` of string-like arguments is modelled as
 concatenation (needed by the identifier constructors and URI Display impls)."""
-import re
+import re, os, sys
 import z3
 from ..values import *
 from . import model_decorator
@@ -71,7 +71,17 @@ def register(E):
         if isinstance(v, I):
             c = v.conc()
             if c is None:
-                raise Inconclusive('formatting a symbolic integer')
+                sv = z3.simplify(v.v)
+                if z3.is_bv_value(sv):
+                    c = sv.as_signed_long() if v.s else sv.as_long()
+            if c is None and not (v.w == 32 and not v.s):
+                # small counters (sums of 0/1 terms): one outcome per value the term can take, decided syntactically
+                hi = getattr(E, 'fmt_int_max', 0)
+                if hi:
+                    return [(v.v == k, E.const_str(str(k).encode()), st) for k in range(hi + 1)] + \
+                           [(z3.UGT(v.v, hi), Panic('OUT-OF-MODEL: formatting an integer above the harness bound'), st)]
+            if c is None:
+                raise Inconclusive('formatting a symbolic integer ' + str(z3.simplify(v.v))[:300])
             txt = chr(c) if v.w == 32 and not v.s else str(c)
             return [(T, E.const_str(txt.encode()), st)]
         if isinstance(v, (Adt, Obj)):
@@ -161,8 +171,9 @@ def register(E):
                 for c, sv, s_after in render_args(E, st, fa):
                     res.append((c, Obj('String', sv), adopt_eff(s_after)))
                 return res
-            except Inconclusive:
-                pass
+            except Inconclusive as e:
+                if os.environ.get('VERIF_DEBUG'):
+                    print('[debug] opaque format:', e, file=sys.stderr)
         st.note(('opaque-format', callee))
         return [(T, Obj('String', Str(E.fresh('fmt_bytes', z3.ArraySort(BV64, BV8)), bv(0), E.fresh_bv('fmt_len'), True, E.N)))]
 
